@@ -157,11 +157,21 @@ def r9_123(ctx):
                 dflt = None
                 if len(fr.den) == 1:
                     dd = fr.den[0]
-                    for x in subexprs(dd):
-                        if x[0] == "call" and x[1].endswith("::unwrap_or") and x[2][1][0] == "const":
-                            dflt = x[2][1][1]
-                            mf = {y[2] for y in subexprs(x[2][0]) if y[0] == "field"}
-                            den_ok = mf == {"movestogo"}
+                    # the divisor is the announced number of moves itself (or its default): through casts
+                    # and a lower clamp `max(.., c)` only - anything else (`min`, a difference, a quotient)
+                    # can make it smaller than announced, and the slice larger than clock/movestogo
+                    x = strip_refs(dd)
+                    while True:
+                        if x[0] == "cast":
+                            x = strip_refs(x[2])
+                        elif x[0] == "call" and (x[1].endswith("::max") or x[1].endswith("Ord::max")) and len(x[2]) == 2 and strip_refs(x[2][1])[0] in ("const", "float"):
+                            x = strip_refs(x[2][0])
+                        else:
+                            break
+                    if x[0] == "call" and x[1].endswith("::unwrap_or") and x[2][1][0] == "const":
+                        dflt = x[2][1][1]
+                        mf = {y[2] for y in subexprs(x[2][0]) if y[0] == "field"}
+                        den_ok = mf == {"movestogo"}
                 ok = tf == {CLOCK[colour]} and 0 < k_eff <= K_MAX + 1e-12 and s_eff >= S_MIN - 1e-9 and den_ok and dflt is not None and dflt >= MTG_DEFAULT
                 why = "slice = %.4g * (%s - %.6g) / movestogo(default %s): needs k <= %.1f, margin >= %g, division by the moves to go (default >= %d)" % (
                     k_eff, "/".join(sorted(tf)), s_eff, dflt, K_MAX, S_MIN, MTG_DEFAULT)
@@ -234,16 +244,21 @@ def r9_45(ctx):
     ok = recv[0] == "call" and recv[1] == PGC
     ctx.ob("find_and_play_best_move:slice-from-this-go", ok, where, "receiver is `%s`; must be the parsed clock of this go command" % shown_recv)
     startp = [i for i in range(1, b.arg_count + 1) if b.local_ty(i) == "std::time::Instant"]
-    # polling loop deadline
+    # polling loop deadline: every deadline test of the function (the out_of_time call, or the
+    # comparison it stands for when the predicate is an inlined method of a clock object)
+    from wa.implied import implying_edges
+    from .search import clock_test
     n = 0
-    for s in b.normal:
-        if s in b.reachable and b.term(s)["k"] == "switch":
-            d = ex.switch_discr(s)
-            if d[0] == "call" and d[1] == OOT:
-                n += 1
-                ok = startp and d[2][0] == ("arg", startp[0]) and d[2][1] == slice_e
-                ctx.ob("find_and_play_best_move:poll-deadline#%d" % n, ok, b.where(b.term_loc(s)),
-                       "polling loop tests out_of_time(%s, %s); must be (start of this go, the computed slice)" % (show_expr(d[2][0], b), show_expr(d[2][1], b)[:60]))
+    seen_tests = set()
+    for s, tg, (e, truth), fresh, lastdefs in implying_edges(b, ex, lambda e, t: clock_test(e, t) is not None):
+        ct = clock_test(e, truth)
+        if (s, ct[3]) in seen_tests:
+            continue
+        seen_tests.add((s, ct[3]))
+        n += 1
+        ok = startp and strip_refs(ct[1]) == ("arg", startp[0]) and strip_refs(ct[2]) == slice_e
+        ctx.ob("find_and_play_best_move:poll-deadline#%d" % n, ok, b.where(b.term_loc(s)),
+               "polling loop tests out_of_time(%s, %s); must be (start of this go, the computed slice)" % (show_expr(ct[1], b), show_expr(ct[2], b)[:60]))
     ctx.floor("deadline tests in the polling loop", n, 1)
     # the spawned closure captures the same pair and hands it to get_best_move
     closures = []
@@ -267,7 +282,17 @@ def r9_45(ctx):
                     except (ValueError, IndexError):
                         return None
                 return None
-            st_c, t_c = cap_of(cargs[2]), cap_of(cargs[3])
+            # the deadline handed to the search: the Instant / u128 arguments, or the fields of a
+            # clock object that bundles them
+            leaves = []
+            for ca in cargs:
+                v = cap_of(ca)
+                if v is None:
+                    continue
+                v = strip_refs(v)
+                leaves += [strip_refs(x) for x in v[3]] if v[0] == "agg" and v[1] not in ("array", "closure") else [v]
+            st_c = next((x for x in leaves if x[0] == "arg" and b.local_ty(x[1]) == "std::time::Instant"), None)
+            t_c = slice_e if slice_e in leaves else next((x for x in leaves if x != st_c and (x[0] == "call" or (x[0] == "arg" and b.local_ty(x[1]) == "u128"))), None)
             ok = startp and st_c == ("arg", startp[0]) and t_c == slice_e
             ctx.ob("find_and_play_best_move:search-deadline", ok, cb.where(cb.term_loc(cbb)),
                    "search thread runs get_best_move(.., %s, %s); must be the same (start, slice) pair the polling loop uses" % (
@@ -332,7 +357,15 @@ def r9_6(ctx):
         if st["k"] == "assign" and st["rv"]["k"] == "aggregate" and st["rv"].get("adt") == GT:
             e = ex.rvalue(st["rv"], loc)
             vals = dict(zip(fields, e[3]))
-            init_ok = all(vals[k] == ("const", 0) for k in ("wtime", "btime", "winc", "binc")) and vals["movestogo"][0] == "agg" and vals["movestogo"][2] == "None"
+            # a value is what it evaluates to: `0` / `None` written out, or the std `Default` of an
+            # integer / of `Option` (what `#[derive(Default)]` builds field by field)
+            def zero(v):
+                return v == ("const", 0) or (v[0] == "call" and not v[2] and any(v[1] == "<%s as std::default::Default>::default" % t for t in (
+                    "i8", "i16", "i32", "i64", "i128", "isize", "u8", "u16", "u32", "u64", "u128", "usize")))
+
+            def none(v):
+                return (v[0] == "agg" and v[2] == "None") or (v[0] == "call" and not v[2] and v[1].startswith("<std::option::Option<") and v[1].endswith("as std::default::Default>::default"))
+            init_ok = all(zero(vals[k]) for k in ("wtime", "btime", "winc", "binc")) and none(vals["movestogo"])
     ctx.ob("parse_go_command:fresh-clock-per-go", init_ok, b.file, "every go starts from wtime = btime = winc = binc = 0 and movestogo = None")
 
 
